@@ -136,6 +136,16 @@ def mc14_job(settings, workers, delay, max_replay):
         mon.bad('statistics-json', mechanism='C14/no-json-summary-although-rows-exist', error=out.get('error'), **tag)
     if settings['failure'] and rows:
         mon.note('failing-subset-run-with-surviving-rows')
+    # ---- an iteration that fails affects only its own row: every requested iteration is started by some worker (hook event
+    # 'begin' with the sampled inputs), and the rows are those of the started iterations that completed
+    begins = {e['input'] for e in out['events'] if e['stage'] == 'begin' and e.get('tail') is not None}
+    done = {e['input'] for e in out['events'] if e['stage'] == 'after_print'}
+    if out['events']:
+        lost = settings['iterations'] - len(begins)
+        mon.check('failure-affects-only-its-own-row', lost == 0 and len(rows) == len(begins & done),
+                  mechanism='C14/iterations-never-run-after-another-iteration-failed' if lost > 0 and settings['failure']
+                  else ('C14/iterations-never-run' if lost > 0 else 'C14/rows-differ-from-completed-iterations'),
+                  requested=settings['iterations'], started=len(begins), completed=len(begins & done), rows=len(rows), **tag)
     return {'mon': mon.dump(), 'info': info}
 
 
@@ -177,7 +187,7 @@ def run(ctx):
                         'rows': v['info']['rows'], 'rows_replayed': v['info']['replayed'], 'mc_error': v['info']['error']}, limit=4)
     ctx.coverage.update({'mc_runs': len(jobs), 'rows_observed': rows, 'rows_replayed': replayed})
     ctx.required.update({'row-grammar': 200, 'row-replay': 150, 'statistics-json': 60, 'statistics-text': 60, 'json-equals-text': 60,
-                         'header': 8, 'row-replay-signed': 10})
+                         'header': 8, 'row-replay-signed': 10, 'failure-affects-only-its-own-row': 8})
     if not ctx.mon.viols and ctx.mon.notes.get('failing-subset-run-with-surviving-rows', 0) == 0:
         ctx.required['failing-subset-observed'] = 1
     ctx.rule = ('the C13 schedule family (GEOPHIRES fast base and HIP-RA-X; iterations {1,3,16,17,40,120,300(,1000)}; 1/2/4/16/32 '
